@@ -430,6 +430,8 @@ def gen_hist(enc, fams, tier, rng, dist, ops=None, std=False, n_random=None, max
 # every two operations of the whole alphabet (one representative argument each), on initial buffers chosen for
 # their shape (ending in a "." component, bare prefixes, verbatim prefixes, names with extensions, multi-byte
 # characters), over every API family in turn.
+import random as _random
+FRNG = _random.Random(20261002)      # family / prefix choice of the stateful and product streams: fixed seed, no stride aliasing
 ALLFAMS = {'u': ['u', 'u8', 'tu', 't8u', 'bu', 'b8u', 'tbu', 'tb8u', 'pu', 'p8'],
            'w': ['w', 'w8', 'tw', 't8w', 'bw', 'b8w', 'tbw', 'tb8w']}
 SINIT_U = HINIT_U + [b'/srv/www/.', b'a/.', b'/a/./', b'x.tar.gz', b'/.', b'\xc3\xa9/b/c', b'/d/f.txt']
@@ -484,13 +486,13 @@ def stateful_hist_cases(tier, rng, dist, focus, encs=('u', 'w'), fam_filter=None
     def emit(fams, init, h):
         nonlocal k
         blob = init + b''.join(bytes.fromhex(x) for x in re.findall(r'x([0-9a-f]*)', ' '.join(h)))
-        fam = fams[k % len(fams)]
+        fam = FRNG.choice(fams)
         k += 1
         if '8' in fam and not is_utf8(blob):
             plain = [f for f in fams if '8' not in f]
             if not plain:
                 return
-            fam = plain[k % len(plain)]
+            fam = FRNG.choice(plain)
         out.append('hist.%s\t%s\t%s' % (fam, hx(init), vlist(h)))
 
     for enc in encs:
@@ -533,7 +535,7 @@ def stateful_sched_cases(tier, rng, dist, encs=('u', 'w'), fam_filter=None):
             scs += [bytes([0] * (n + 1)), bytes([1] * (n + 1)), bytes([0, 1] * n), bytes([1, 0] * n), bytes([0, 0, 1] * n)]
             for sc in scs:
                 for _ in range(2):
-                    fam = fams[k % len(fams)]
+                    fam = FRNG.choice(fams)
                     k += 1
                     if '8' in fam and not is_utf8(s_):
                         continue
@@ -585,13 +587,13 @@ def product_hist_cases(tier, rng, dist, focus, encs=('u', 'w'), fam_filter=None)
         def emit(init, h):
             nonlocal k
             blob = init + b''.join(bytes.fromhex(x) for x in re.findall(r'x([0-9a-f]*)', ' '.join(h)))
-            fam = fams[k % len(fams)]
+            fam = FRNG.choice(fams)
             k += 1
             if '8' in fam and not is_utf8(blob):
                 plain = [f for f in fams if '8' not in f]
                 if not plain:
                     return
-                fam = plain[k % len(plain)]
+                fam = FRNG.choice(plain)
             out.append('hist.%s\t%s\t%s' % (fam, hx(init), vlist(h)))
 
         # (1) the operation under test with a boundary operand, on a buffer an earlier operation left with room
@@ -600,7 +602,7 @@ def product_hist_cases(tier, rng, dist, focus, encs=('u', 'w'), fam_filter=None)
                 if o in ('sext', 'wext') and (b'/' in n or (win and b'\\' in n)):
                     continue
                 for base in bases[:: (2 if tier == 'quick' and len(arg_ops) > 2 else 1)]:
-                    pre = CAP_PREFIXES[k % 2]
+                    pre = CAP_PREFIXES[FRNG.randrange(2)]
                     emit(base, list(pre) + ['(%s %s)' % (o, hx(n))])
                     k += 1
         # (2) a boundary name already in the buffer (as its last component, with and without trailing bytes), then room, then the operation
@@ -645,13 +647,13 @@ def product_sched_cases(tier, rng, dist, encs=('u', 'w'), fam_filter=None):
             if n > 40:
                 scs = scs[:2]
             for sc in scs:
-                fam = fams[k % len(fams)]
+                fam = FRNG.choice(fams)
                 k += 1
                 if '8' in fam and not is_utf8(s_):
                     plain = [f for f in fams if '8' not in f]
                     if not plain:
                         continue
-                    fam = plain[k % len(plain)]
+                    fam = FRNG.choice(plain)
                 out.append(case('c03.' + fam, s_, sc))
     hist(dist.setdefault('stream', {}), 'product-schedules')
     return out
